@@ -16,8 +16,14 @@ from wire import hx, unhx, chars, lst
 KIND = "uboot"
 SPECS = ["C19"]
 THEOREMS = [
-    "C19.special_forbidden", "C19.intr_forbidden", "C19.blacklist_control_only", "C19.quoting_bytes_sendable",
-    "C19.crc_override_eq", "C19Q.hushWords_escape",
+    "C19.spec_holds", "C19.exec_exact", "C19.exec_crc_exact", "C19.exec0_raises_iff", "C19.test_iff",
+    "C19.exec_fragmentation", "C19.env_roundtrip", "C19.special_forbidden", "C19.intr_forbidden",
+    "C19.blacklist_control_only", "C19.quoting_bytes_sendable", "C19.printable_sendable", "C19.crc_override_eq",
+    "C19.early_prompt_confuses", "C19.crc_defect_witness",
+    "UBootExec.exec_general", "UBootExec.fetchRetcode_spec", "UBootExec.crc_text", "UBootExec.escape_sendable",
+    "UBootSend.sendLoopRB_line", "UBootChan.read_exact", "UBootChan.rup_good", "UBootCon.feed_line",
+    "UBootCon.runLine_escape", "UBootText.decode_sep", "UBootText.text_crc_restore", "UBootText.parseInt_digits",
+    "UBootText.sliceValue_printLine", "C19Q.hushWords_escape",
 ]
 LEAN_MODULES = ["TbotVerif.Props.C19", "TbotVerif.Props.C19Q"]
 QUICK_N, THOROUGH_N = 3000, 60000
